@@ -354,6 +354,26 @@ IfDS(c, a, b) ==
                         ELSE { [x \in names |-> IF x \in ids THEN r[x] ELSE sel.v] }
     IN  [comps |-> keep, rows |-> UNION { from(pick(r), r) : r \in c.rows }]
 
+(* case when DS_c1 then a1 when DS_c2 then a2 ... else b at dataset level: as IfDS, the datapoints are those of the first       *)
+(* condition; a condition dataset without a datapoint for the key counts as not true.  Conditions are mutually exclusive in     *)
+(* everything generated (READINGS.md 24); should two be true the value is not determined.                                      *)
+CaseDS(cs, ts, e) ==
+    LET opnds == [i \in 1..(Len(ts) + 1) |-> IF i <= Len(ts) THEN ts[i] ELSE e]
+        shape == opnds[CHOOSE i \in DOMAIN opnds : IsDS(opnds[i])]
+        keep == { x \in shape.comps : x.r \in {"I", "M"} }
+        names == { x.n : x \in keep }
+        ids == IdsOf(shape)
+        cm(i) == CHOOSE m \in MeasOf(cs[i]) : TRUE
+        condAt(i, r) == LET hit == { q \in cs[i].rows : Rst(q, ids) = Rst(r, ids) }
+                        IN  IF hit = {} THEN Null ELSE (CHOOSE q \in hit : TRUE)[cm(i)]
+        trueAt(r) == { i \in DOMAIN cs : condAt(i, r) = T }
+        from(sel, r, undet) == IF IsDS(sel)
+                               THEN { [x \in names |-> IF undet /\ x \notin ids THEN Undet ELSE q[x]] : q \in { q \in sel.rows : Rst(q, ids) = Rst(r, ids) } }
+                               ELSE { [x \in names |-> IF x \in ids THEN r[x] ELSE IF undet THEN Undet ELSE sel.v] }
+        rowsOf(r) == LET m == trueAt(r)
+                     IN  IF m = {} THEN from(e, r, FALSE) ELSE from(ts[Max(m)], r, Cardinality(m) > 1)
+    IN  [comps |-> keep, rows |-> UNION { rowsOf(r) : r \in cs[1].rows }]
+
 -----------------------------------------------------------------------------
 (* The evaluator *)
 RECURSIVE EvalD(_, _)
@@ -396,6 +416,12 @@ EvalD(t, env) ==
             IN  IF IsE(c) THEN c
                 ELSE IF IsDS(c) THEN (IF IsE(a) THEN a ELSE IF IsE(b) THEN b ELSE IfDS(c, a, b))
                 ELSE IF c.v = T THEN a ELSE b
+      [] t.k = "case" ->    \* dataset-level case (component-level case is evaluated by EvalC inside clauses)
+            LET cs == [i \in DOMAIN t.whens |-> EvalD(t.whens[i][1], env)]
+                ts == [i \in DOMAIN t.whens |-> EvalD(t.whens[i][2], env)]
+                e == EvalD(t.else, env)
+                all == cs \o ts \o <<e>>
+            IN  IF \E i \in DOMAIN all : IsE(all[i]) THEN all[CHOOSE i \in DOMAIN all : IsE(all[i])] ELSE CaseDS(cs, ts, e)
       [] t.k = "memb" ->
             LET x == EvalD(t.ds, env) IN IF IsE(x) THEN x ELSE Memb(x, t.comp)
       [] t.k = "clause" ->
